@@ -39,7 +39,7 @@ type svcKey struct {
 }
 
 func newSvcWorld(c *core.Case, col string) (*svcWorld, error) {
-	b, err := bed.New()
+	b, err := bed.Fresh()
 	if err != nil {
 		return nil, err
 	}
